@@ -262,6 +262,103 @@ def _visit_step(kind: int, inst: int, target: int, action: int) -> bool:
     return result(ok, len(kids) > 0)
 
 
+class PlanRecorder(ASTVisitor):
+    """applies one action per listed child: plan maps id(child) -> (action, replacement)"""
+
+    def __init__(self, plan):
+        self.events, self.plan = [], plan
+
+    def enter(self, node):
+        self.events.append(("enter", id(node)))
+        action, repl = self.plan.get(id(node), (0, None))
+        if action == 1:
+            return None
+        if action == 2:
+            return repl
+        if action == 3:
+            raise SkipNode()
+        return node
+
+    def leave(self, node):
+        self.events.append(("leave", id(node)))
+
+
+def run_plan(K, J, wanted):
+    """wanted: list of (child index, action); returns (ok, number of children) for the J-th instance of kind K"""
+    node = get_instance(K, J)
+    before = copy.deepcopy(node)
+    kids = [c for c in children_of(node) if not known.c18_unvisited_slot(K, c[0])]
+    if any(t >= len(kids) for t, _ in wanted):
+        return None, len(kids)
+    plan, by_index = {}, {}
+    for t, a in wanted:
+        child = kids[t][2]
+        repl = make_replacement(child) if a == 2 else None
+        plan[id(child)] = (a, repl)
+        by_index[t] = (a, repl)
+    rec = PlanRecorder(plan)
+    ret = rec.visit(node)
+    interesting = {id(node): "self"}
+    for n, (slot, i, c) in enumerate(kids):
+        interesting[id(c)] = ("kid", n)
+        if by_index.get(n, (0, None))[1] is not None:
+            interesting[id(by_index[n][1])] = ("repl", n)
+    got = [(ev, interesting[i]) for (ev, i) in rec.events if i in interesting]
+    exp = [("enter", "self")]
+    for n in range(len(kids)):
+        a, repl = by_index.get(n, (0, None))
+        exp.append(("enter", ("kid", n)))
+        if a in (1, 3):
+            continue
+        exp.append(("leave", ("repl", n) if a == 2 else ("kid", n)))
+    exp.append(("leave", "self"))
+    if known.c18_misordered_kind(K):
+        ok = sorted(map(repr, got)) == sorted(map(repr, exp)) and got[0] == exp[0] and got[-1] == exp[-1]
+    else:
+        ok = got == exp
+    ok = ok and ret is node
+    if not ok:
+        return False, len(kids)
+    index_of = {(slot, i): n for n, (slot, i, c) in enumerate(kids)}
+    for slot in TABLE[K]:
+        old, new = getattr(before, slot, None), getattr(node, slot, None)
+        if known.c18_unvisited_slot(K, slot):
+            ok = ok and new == old
+        elif isinstance(old, list):
+            expected = []
+            for i, c in enumerate(old):
+                a, repl = by_index.get(index_of[(slot, i)], (0, None))
+                if a == 1:
+                    continue
+                expected.append(repl if a == 2 else c)
+            new = list(new or [])
+            ok = ok and len(new) == len(expected) and all((x is e) if isinstance(e, A.Node) and any(e is r for _, r in by_index.values()) else (x == e) for x, e in zip(new, expected))
+        elif old is not None:
+            a, repl = by_index.get(index_of[(slot, None)], (0, None))
+            ok = ok and ((new is None) if a == 1 else (new is repl) if a == 2 else (new == old))
+    return ok, len(kids)
+
+
+def _visit_pairs(kind: int, inst: int, t1: int, a1: int, t2: int, a2: int) -> bool:
+    """
+    pre: 0 <= kind < len(KINDS) and 0 <= inst < MAX_INST and 0 <= t1 < t2 < 12 and 1 <= a1 <= 3 and 1 <= a2 <= 3
+    pre: thorough() or t2 == t1 + 1 or t1 == 0
+    pre: shard_of(kind)
+    post: _
+    """
+    K = pick(kind, KINDS)
+    J = concrete_int(inst, 0, MAX_INST - 1)
+    T1, T2 = concrete_int(t1, 0, 10), concrete_int(t2, 1, 11)
+    A1, A2 = concrete_int(a1, 1, 3), concrete_int(a2, 1, 3)
+    with untraced():
+        if J >= len(_INST[K]):
+            return result(True, False)
+        ok, nkids = run_plan(K, J, [(T1, A1), (T2, A2)])
+        if ok is None:
+            return result(True, False)
+    return result(ok, True)
+
+
 class ChainRec(ASTVisitor):
     def __init__(self, log, name, mode, target_kind):
         self.log, self.name, self.mode, self.target_kind = log, name, mode, target_kind
@@ -344,6 +441,11 @@ CONDITIONS = [
         assumptions=["oracle: per-kind child table in source order from the grammar; only depth-1 events are compared (induction on tree height is an argument, not a query)"],
         witness={"kind": 5, "inst": 0, "target": 0, "action": 0},
     ),
+    Cond(name="visit_pairs", fn=_visit_pairs, quick=150, thorough=600, per_path=60, shards_quick=16, shards_thorough=32,
+         bound="as visit_step, but TWO children of the same node get an action each in one pass (delete / replace / skip x delete / replace / skip; every pair of child positions, quick: adjacent pairs and pairs with the "
+               "first child): events, the rebuilt child lists (identity of replacements, order of survivors) and single-valued slots are exactly what the two local edits imply",
+         symbolic={"kind": "choice: node kind", "inst": "choice: instance", "t1,t2": "choice: child positions", "a1,a2": "choice: actions"},
+         witness={"kind": 0, "inst": 0, "t1": 0, "a1": 1, "t2": 1, "a2": 2}),
     Cond(name="chained", fn=_chained, quick=60, thorough=60, bound="1..3 chained recording visitors, one of which returns None / raises SkipNode on Field nodes",
          symbolic={"n,who,mode": "choice"}, witness={"n": 2, "who": 0, "mode": 0}),
     Cond(name="dispatch_total", fn=_dispatch_total, quick=60, thorough=60, bound="every node kind reaches its enter_*/leave_* pair on DispatchingVisitor",
